@@ -938,6 +938,15 @@ impl Sched {
             // StartSend, PollComplete, Poll (CallKind codes)
             let k = st.threads[me].activity.kind;
             if k == 2 || k == 3 || k == 13 {
+                // in total: every further turn of poll's retry loop needs a value that became ready
+                // and was then taken by a sibling, so one call makes at most (values + 1) turns of
+                // at most the spin budget each; eight times the quiet bound is far beyond that in
+                // scenarios of at most 30 values (two tasks spinning side by side reset each
+                // other's quiet counters with their pins, so the quiet bound alone is not enough)
+                if st.threads[me].call_points as u64 > 8 * st.cfg.fut_quiet_bound {
+                    let b = 8 * st.cfg.fut_quiet_bound;
+                    self.abort_here(st, Verdict::TryOpSpins(me, b));
+                }
                 let foreign = st.changes_total - st.threads[me].own_changes;
                 let th = &mut st.threads[me];
                 if foreign != th.call_seen_foreign {
